@@ -258,23 +258,27 @@ def run_path(pp, solver, tvars, entry, n, decisions, extra_pc=(), nd_shared=None
     r.post_hooks['Parser::get_state'] = post_get
     r.post_hooks['Parser::set_state'] = post_set
     # lasso detection at loop heads of emitted rule functions
-    r.loop_seen = set(); grow = {}
+    r.loop_seen = {}; grow = {}; r.cycle = None
     def loop_key(m, fr, bb):
         k = fr.fn.key
         if not (k.startswith('Parser::rule_') or k.endswith('::rec') or k == 'rec'): return None
         p = parser_agg(fr)
         if p is None: return None
         d = p.f[P['cst']].f[CST['data']]
-        base = (k, bb, len(m.stack), p.f[P['pos']], p.f[P['error_since_advance']], p.f[P['error_node']].disc, p.f[P['in_ordered_choice']], m.nd)
+        # the number of environment answers (predicates, assertions) consumed so far is NOT part of the state: a loop that
+        # only asks the environment again and again without progress does not terminate for the answers that repeat
+        base = (k, bb, len(m.stack), p.f[P['pos']], p.f[P['error_since_advance']], p.f[P['error_node']].disc, p.f[P['in_ordered_choice']])
         items = d.f[CD['nodes']].items
         # a loop that keeps its token position and control state while the tree only grows (a node opened and closed per
         # iteration) never repeats a full state; three visits with a strictly growing node vector are reported as
         # non-termination as well (the native run under a timeout has the last word)
         g = grow.get(base)
-        if g is None or len(items) <= g[0]: grow[base] = (len(items), 1)
+        if g is None or len(items) <= g[0]: grow[base] = (len(items), 1, m.nd)
         else:
-            grow[base] = (len(items), g[1] + 1)
-            if g[1] + 1 >= 4: raise PathAbort('lasso', f'{k} bb{bb}: token position and control state repeat while the tree keeps growing')
+            grow[base] = (len(items), g[1] + 1, m.nd)
+            if g[1] + 1 >= 4:
+                m.cycle = (g[2], m.nd)
+                raise PathAbort('lasso', f'{k} bb{bb}: token position and control state repeat while the tree keeps growing')
         return base + (tuple(node_plain(x, pp)[1:] for x in items), d.f[CD['non_skip_len']],
                        tuple((i, v) for i, v in enumerate(fr.L) if v.__class__ in (int, bool)))      # e.g. which alternative of an ordered choice is being attempted
     r.loop_key = loop_key
@@ -374,6 +378,9 @@ def explore(pp, entry, n, extra_pc_fn=None, on_path=None, max_paths=None, first_
         if not ok: raise Unsupported('final path condition unsat')
         res.witness = [model.eval(t, model_completion=True).as_long() for t in tvars]
         res.script = ''.join('1' if z3.is_true(model.eval(v, model_completion=True)) else '0' for v in r.nd_vars)
+        if res.status == 'lasso' and getattr(r, 'cycle', None) and r.cycle[1] > r.cycle[0]:
+            a, b = r.cycle      # the answers of one round of the cycle are repeated forever: prefix(cycle)
+            res.script = res.script[:a] + '(' + res.script[a:b] + ')'
         if on_path: on_path(r, res, solver, tvars)
         out.append(res)
         if max_paths and len(out) >= max_paths: break
